@@ -39,6 +39,8 @@ func cmdM3(args []string) error {
 	alpha := fs.String("alphabet", "routing", "event alphabet")
 	cancel := fs.String("cancel", "safe", "cancellation: none, safe (only after the requests were sent), any")
 	faults := fs.Bool("faults", false, "stop and restart servers at random while the workload runs")
+	qfdelay := fs.Int("qfdelay", 0, "percentage of calls with a slow quorum function")
+	idjump := fs.Bool("idjump", false, "move the manager's message id counter forward by 2^32 minus a few ids now and then (stands for 2^32 calls made meanwhile)")
 	methodsFlag := fs.String("methods", "", "comma-separated subset of the methods (default: all)")
 	fs.Parse(args)
 	methods := m3Methods
@@ -112,7 +114,7 @@ func cmdM3(args []string) error {
 				return cmds
 			}
 		}
-		r := &drive.Runner{E: env}
+		r := &drive.Runner{E: env, QFDelayPct: *qfdelay}
 		var wg sync.WaitGroup
 		var mu sync.Mutex
 		var toks []uint64
@@ -143,6 +145,32 @@ func cmdM3(args []string) error {
 				}()
 			}
 			stopFaults := make(chan struct{})
+			if *idjump {
+				// the environment: "2^32 - d calls later".  Message ids are 64 bit wide and manager-wide
+				// unique; a process that makes more than 2^32 calls must not see ids repeat while
+				// requests with the old ids are still outstanding (C05).  The low 32 bits of the ids
+				// issued after the jump are those of the last d calls.
+				fwgJ := &sync.WaitGroup{}
+				fwgJ.Add(1)
+				jrng := rand.New(rand.NewSource(rng.Int63()))
+				go func() {
+					defer fwgJ.Done()
+					for j := 0; j < 40; j++ {
+						select {
+						case <-stopFaults:
+							return
+						case <-time.After(time.Duration(3+jrng.Intn(10)) * time.Millisecond):
+						}
+						cur := tr.MaxMsg()
+						d := uint64(1 + jrng.Intn(8))
+						if cur&0xFFFFFFFF > d+4 && cur&0xFFFFFFFF < 1<<19 {
+							gorums.VerifSetNextMsgID(env.Mgr.RawManager, cur+1<<32-d)
+							tr.Emit("IdJump", 0, 0, "from", int64(vtrace.NormMsg(cur)), "back", int64(d))
+						}
+					}
+				}()
+				defer fwgJ.Wait()
+			}
 			var fwg sync.WaitGroup
 			if *faults {
 				// the environment: a server crashes and comes back every now and then
